@@ -164,10 +164,15 @@ def run(tier):
     b.execute()
     r.add_sample({"cfg": [[1, 2], [2, 3], [3, 2], [2, 4]], "max_round": 2, "obligation": "loop ends, each statement analysed <= 2 times"})
     r.add_sample({"sfg": "v0 <-> v1 symbol-flow cycle with a statement defining v0 from v1", "obligation": "worklist pops bounded"})
+    from vlib.checks import c13_programs
+    c13_programs.run_leg(r, tier)
     return r
 
 
 def replay(rec):
+    if rec["obligation"].startswith("program leg"):
+        from vlib.checks import c13_programs
+        return c13_programs.replay(rec)
     cex = rec["cex"]
     ob = rec["obligation"]
     if ob.startswith("(d)"):
